@@ -43,9 +43,10 @@ InvClause == IF ~AtMostOncePerKey' THEN "inv:AtMostOncePerKey"
              ELSE IF ~ReplayExactW' THEN "inv:ReplayExact"
              ELSE IF ~ArgsPrecedenceW' THEN "inv:ArgsPrecedence"
              ELSE IF ~IsolationW' THEN "inv:Isolation"
+             ELSE IF ~NamesOnlyOnMissW' THEN "inv:NamesOnlyOnMiss"
              ELSE ""
 Strict == (IF ReplayExact' THEN {} ELSE {"ReplayExact"}) \cup (IF ArgsPrecedence' THEN {} ELSE {"ArgsPrecedence"})
-          \cup (IF Isolation' THEN {} ELSE {"Isolation"})
+          \cup (IF Isolation' THEN {} ELSE {"Isolation"}) \cup (IF NamesOnlyOnMiss' THEN {} ELSE {"NamesOnlyOnMiss"})
 Report(ok, i, clause, fnd) == PrintT(ToJson([t |-> Traces[tr].id, ok |-> ok, i |-> i, clause |-> clause, findings |-> fnd]))
 Finish(c0) ==
   LET c == IF c0 # "" THEN c0 ELSE InvClause
@@ -55,9 +56,10 @@ Finish(c0) ==
      /\ (c # "" => Report(FALSE, l, c, f))
      /\ ((c = "" /\ l + 1 > Len(Ev)) => Report(TRUE, l, "", f))
 TStep ==
-  /\ verdict = "run" /\ l <= Len(Ev) /\ UNCHANGED tr
+  /\ verdict = "run" /\ l <= Len(Ev) /\ UNCHANGED tr /\ Alive
   /\ LET e == Ev[l] IN
-     \/ /\ e.ev = "render" /\ Render(e.t, e.c) /\ Finish(RenderClause(e))
+     \/ /\ e.ev = "render" /\ Render(e.t, e.c, e.hasu)       \* (a raising render ends the history: the driver stops there)
+        /\ Finish(IF e.raised # (last'.op = "raised") THEN "raised" ELSE IF e.raised THEN "" ELSE RenderClause(e))
      \/ /\ e.ev = "renderdef" /\ \E j \in 1..NSec(e.t) : W[e.t].secs[j].name = e.name /\ RenderDef(e.t, j, e.arg, e.c)
         /\ Finish(RenderClause(e))
      \/ /\ e.ev = "invbody" /\ InvalidateBody(e.t) /\ Finish(Common(e))
